@@ -171,6 +171,8 @@ PairTable(x, y) ==
     [sub |-> Denote(a) \subseteq Denote(b), ovl |-> NsDen(a) \cap NsDen(b) # {}]
 
 Emit == PrintT(ToJson([ver |-> Ver, hist |-> hist, den |-> den, inexpr |-> inexpr,
+                       \* the operands of a pair keep their own denotations (the operations are functions)
+                       ops |-> IF Len(hist) = 2 THEN <<Denote(Comp(hist[1])), Denote(Comp(hist[2].arg))>> ELSE <<>>,
                        rel |-> IF Len(hist) = 2
                                  THEN PairTable(hist[1], hist[2].arg)
                                  ELSE [sub |-> FALSE, ovl |-> FALSE]]))
